@@ -77,7 +77,7 @@ def classify(e):
 # ------------------------------------------------------------------ configuration spaces
 KERNELS = None
 GEMINI_INSTANCES = ["inst:mmd_rbf", "inst:wass_l1", "inst:mmd_precomputed", "inst:wass_precomputed"]
-WASS_METRICS = ["euclidean", "l1", "cosine", "precomputed", "l2", "manhattan", "cityblock", "nan_euclidean"]
+WASS_METRICS = ["euclidean", "l1", "cosine", "precomputed", "l2", "manhattan", "cityblock", "nan_euclidean", "callable:l1"]
 MMD_EST = ["LinearMMD", "MLPMMD", "SparseLinearMMD", "SparseMLPMMD", "CategoricalMMD"]
 WASS_EST = ["LinearWasserstein", "MLPWasserstein", "CategoricalWasserstein"]
 CONTAINERS = ["ndarray", "list", "float32", "int", "fortran"]     # documented: X is array-like
@@ -99,7 +99,7 @@ def space(name):
         return {"n_kind": ["K", "K+1", "9"], "d": [1, 3], "container": list(CONTAINERS), "max_clusters": [1, 2, 3, 5],
                 "max_depth": [None, 1, 2],
                 "min_samples_split": [2, 3, 5], "min_samples_leaf": [1, 2, 3], "max_features": [None, 1, 5],
-                "max_leaves": [None, 2, 3], "kernel": kernels() + ["precomputed"]}
+                "max_leaves": [None, 2, 3], "kernel": kernels() + ["precomputed", "callable:linear"]}
     sp = {"n_kind": ["K", "K+1", "9"], "d": [1, 3], "container": list(CONTAINERS), "n_clusters": [1, 2, 3, 4],
           "solver": ["adam", "sgd"], "learning_rate": [1e-3, 0.05], "max_iter": [1, 2]}
     if fl.accepts(cls, "batch_size"):
@@ -109,10 +109,10 @@ def space(name):
     if fl.accepts(cls, "ovo"):
         sp["ovo"] = [False, True]
     if fl.accepts(cls, "kernel"):
-        sp["kernel"] = kernels() + ["precomputed"]
+        sp["kernel"] = kernels() + ["precomputed", "callable:linear"]
         sp["kernel_params"] = [None, "gamma"]
     if fl.accepts(cls, "base_kernel"):
-        sp["base_kernel"] = kernels()
+        sp["base_kernel"] = kernels() + ["callable:linear"]
         sp["base_kernel_params"] = [None, "gamma"]
     if fl.accepts(cls, "metric"):
         sp["metric"] = list(WASS_METRICS)
@@ -269,9 +269,23 @@ def precomputed_for(params, X):
     return None
 
 
+def resolve_callable(name, key, label):
+    """the function behind a 'callable:…' label, with the calling convention of the place that receives it"""
+    if key == "base_kernel":                      # KernelRIM: kernel(X, self.input_data_)
+        return lambda A, B: np.asarray(A) @ np.asarray(B).T
+    if key == "kernel" and name == "Kauri":       # pairwise_kernels(X, metric=callable): called on pairs of rows
+        return lambda a, b: float(np.dot(a, b))
+    if key == "kernel":                           # MMDGEMINI.compute_affinity: self.kernel(X)
+        return lambda A: np.asarray(A) @ np.asarray(A).T
+    return lambda A: np.abs(np.asarray(A)[:, None, :] - np.asarray(A)[None, :, :]).sum(-1)      # a metric
+
+
 def rebuild(info):
     """(estimator instance, X, y) from the JSON-friendly `info` of `concretise` (used by replays)"""
     kw = dict(info["params"])
+    for k in ("kernel", "base_kernel", "metric"):
+        if isinstance(kw.get(k), str) and kw[k].startswith("callable:"):
+            kw[k] = resolve_callable(info["estimator"], k, kw[k])
     if "gemini" in kw:
         kw["gemini"] = gemini_from_label(kw["gemini"])
     if kw.get("feature_mask") is not None:
@@ -319,7 +333,12 @@ def expected_objective(info, X, y):
         cls = "KLGEMINI"
     elif name in MMD_EST:
         cls, ovo = "MMDGEMINI", p["ovo"]
-        aff = y if p["kernel"] == "precomputed" else pairwise_kernels(X, metric=p["kernel"], **(p.get("kernel_params") or {}))
+        if p["kernel"] == "precomputed":
+            aff = y
+        elif p["kernel"] == "callable:linear":
+            aff = np.asarray(X) @ np.asarray(X).T
+        else:
+            aff = pairwise_kernels(X, metric=p["kernel"], **(p.get("kernel_params") or {}))
     elif name in WASS_EST:
         cls, ovo = "WassersteinGEMINI", p["ovo"]
         aff = y if p["metric"] == "precomputed" else pairwise_distances(X, metric=p["metric"])
